@@ -11,11 +11,18 @@ struct Failing {
 }
 /// which kind of error the failing terminal reports (0 Other, 1 BrokenPipe, 2 WouldBlock, 3 Interrupted)
 static KIND: AtomicUsize = AtomicUsize::new(0);
+/// one-shot mode: the operation that finds the budget at 0 fails, then the terminal works again; HIT counts such failures
+static ONESHOT: AtomicUsize = AtomicUsize::new(0);
+static HIT: AtomicUsize = AtomicUsize::new(0);
 impl Failing {
     fn op(&self) -> io::Result<()> {
         let b = self.budget.load(Ordering::SeqCst);
         if b == 0 {
             let k = match KIND.load(Ordering::SeqCst) { 1 => io::ErrorKind::BrokenPipe, 2 => io::ErrorKind::WouldBlock, 3 => io::ErrorKind::Interrupted, _ => io::ErrorKind::Other };
+            if ONESHOT.load(Ordering::SeqCst) == 1 {
+                self.budget.store(1_000_000, Ordering::SeqCst);
+                HIT.fetch_add(1, Ordering::SeqCst);
+            }
             return Err(io::Error::new(k, "terminal gone"));
         }
         self.budget.store(b - 1, Ordering::SeqCst);
@@ -156,6 +163,31 @@ pub fn io_fail_state(_args: &[String]) -> String {
         }
     }
     KIND.store(0, Ordering::SeqCst);
+    // (a2) a single failing operation (the k-th of the call, any kind of operation) is reported too, for both alignments
+    for bottom in [false, true] {
+        for which in 0..2 {
+            for k in 0..16usize {
+                let t = Failing { budget: Arc::new(AtomicUsize::new(1_000_000)) };
+                let budget = t.budget.clone();
+                let mp = MultiProgress::with_draw_target(ProgressDrawTarget::term_like(Box::new(t)));
+                if bottom { mp.set_alignment(indicatif::MultiProgressAlignment::Bottom); }
+                let a = mp.add(ProgressBar::new(10));
+                let b = mp.add(ProgressBar::new(10));
+                a.tick();
+                b.tick();
+                HIT.store(0, Ordering::SeqCst);
+                ONESHOT.store(1, Ordering::SeqCst);
+                budget.store(k, Ordering::SeqCst);
+                let r = if which == 0 { mp.println("x") } else { mp.clear() };
+                ONESHOT.store(0, Ordering::SeqCst);
+                budget.store(1_000_000, Ordering::SeqCst);
+                if HIT.load(Ordering::SeqCst) > 0 && r.is_ok() {
+                    return format!("{{\"found\": true, \"clause\": \"C18 explicit io::Result-returning calls report the terminal error, also when a single operation fails and the following ones succeed\", \"input\": {{\"history\": \"MultiProgress ({} alignment) with bars a, b, both painted; terminal operation number {} of the call fails once\", \"call\": \"{}\", \"returned\": \"Ok(())\"}}, \"rerun\": \"replay io_fail_state\"}}",
+                        if bottom { "Bottom" } else { "Top" }, k, if which == 0 { "mp.println" } else { "mp.clear" });
+                }
+            }
+        }
+    }
     // (b) logical state is what it is without the failure
     let ops: Vec<(&str, Box<dyn Fn(&ProgressBar)>)> = vec![
         ("inc(2)", Box::new(|p| p.inc(2))), ("set_message(m)", Box::new(|p| p.set_message("m"))), ("set_length(20)", Box::new(|p| p.set_length(20))),
